@@ -30,7 +30,8 @@ def _scalar_value(draw, k, sql=False):
     if k == "float":
         return draw(st.sampled_from([0.0, -0.0, 0.5, -1.25, 1e-9, 1e15, 3.0])).hex()
     if k == "str":
-        return draw(st.sampled_from(["", "a", "A b", "é", "ß中", "x" * 40, "'quote\"", "%_"]))
+        # incl. substrings of one another and strings that look like ISO dates
+        return draw(st.sampled_from(["", "a", "A b", "A", "b", "é", "ß中", "x" * 40, "'quote\"", "%_", "2024-05-17", "20240517"]))
     if k == "bool":
         return draw(st.booleans())
     if k == "datetime":
